@@ -391,21 +391,23 @@ with chk_unwind (fuel : nat) (c : ctx) (ds : list dact) (h : held) {struct fuel}
     end
   end.
 
-Definition FUEL : nat := 40 * 100.
 
 (* every entry point (and every Go body) is checked from the empty held set and must give
    every mutex back *)
-Definition chk_entry (fs : nat * stmt) : list viol :=
+Definition chk_entry (fuel : nat) (fs : nat * stmt) : list viol :=
   let c := {| cx_ex := excl_of p (fst fs); cx_stack := [fst fs] |} in
-  let r := chk_frame FUEL c (snd fs) [] in
+  let r := chk_frame fuel c (snd fs) [] in
   fst r ++ flat_map (fun h => if is_nil h then [] else [vio c VUnbalanced h]) (snd r).
 
-Definition violations : list viol := flat_map chk_entry (all_entries p).
+Definition violations (fuel : nat) : list viol := flat_map (chk_entry fuel) (all_entries p).
 
 End Checker.
 
-Definition lockset_violations (p : program) : list viol := violations p (ls_extra (guard_of p)).
-Definition order_violations (p : program) : list viol := violations p (ord_extra (rank_of p)).
+(* fuel of the checkers: an upper bound on syntactic depth plus call depth; exhausting it is a violation *)
+Definition FUEL : nat := 40 * 100.
+
+Definition lockset_violations (p : program) : list viol := violations p (ls_extra (guard_of p)) FUEL.
+Definition order_violations (p : program) : list viol := violations p (ord_extra (rank_of p)) FUEL.
 
 Definition check_locksets (p : program) : bool := is_nil (lockset_violations p).
 Definition check_order (p : program) : bool := is_nil (order_violations p).
